@@ -11,7 +11,7 @@ RULE = ("cases are a scene (module variables; factories whose locals are capture
         "as a list sharing one local, or nested two deep, or created inside an if / else / while / from block of a factory that shadows a captured variable with a same-named local, or over an OPTIONAL local that closures bump and reset to nil through `modify`, or taking a VALUE out of a list element / map entry with `modify` while another closure writes that cell, or over a local holding a list / a function that `modify` replaces by an equal-looking new value; readers / setters / incrementers / shadowing bodies; higher-order "
         "callers that deliberately own locals with the same names as captured variables) plus a history of up to 12 steps "
         "(create instance, call closure directly / through an alias / through a list / through a higher-order function / "
-        "inside a block, owner writes in every form - assignment, op-assignment, assignment inside a block, `?=` as statement / as `if` or `while` condition / inside a block, at module level and inside a factory after the closure exists -, print, is_closure()); a print follows every step. Oracle = reference interpreter "
+        "inside a block, through the built-ins filter / map for factory-made closures that take a parameter, owner writes in every form - assignment, op-assignment, assignment inside a block, `?=` as statement / as `if` or `while` condition / inside a block, at module level and inside a factory after the closure exists -, print, is_closure()); a print follows every step. Oracle = reference interpreter "
         "with explicit cells. Non-trivial = a write through one closure is later observed through another closure or the "
         "owner, or two instances of one factory coexist; distinct by program text")
 ASSUMPTIONS = ["capture rule: the free variables of the function body (transitively); is_closure() <=> that set is non-empty"]
@@ -58,6 +58,9 @@ def body_for(kind, v, w=None, k=1):
         return ("fn", [], "int", [("decl", "go", None, I(0), ()),
                                   ("while", ("bin", "<", V("go"), I(1)), [("decl", "go", None, ("bin", "+", V("go"), I(1)), ()), ("decl", v, None, I(70 + k), ())]),
                                   ("decl", "late", None, ("fn", [], "int", [("return", V(v))]), ()), ("return", ("call", V("late"), []))])
+    if kind == "opinc":
+        # an op-assignment on the captured variable (no `modify`): it writes the captured variable, whatever the callers own
+        return ("fn", [], "int", [("opassign", V(v), g_op(k), I(k)), ("return", V(v))])
     if kind == "afterloop":
         # a from loop whose COUNTER is named like the captured variable; after the loop - in a closure created there - the name
         # means the captured variable again (the counter is gone)
@@ -80,6 +83,7 @@ def body_for(kind, v, w=None, k=1):
 
 
 RET_INT = ["read", "inc", "shadow", "pure", "condinc", "loopsum"]
+g_op = lambda k: ["+=", "-=", "*="][k % 3]
 
 
 @st.composite
@@ -143,7 +147,10 @@ def cases(draw):
                 write = ("opassign", ("index", V("row"), I(0)), "+=", I(k))
             take = ("fn", [], "int", [("decl", "held", None, read, ("modify",)), ("return", V("held"))])
             bump = ("fn", [], "int", ([("decl", "row", None, ("index", V("cells"), I(0)), ())] if src == "element-of-nested" else []) + [write, ("return", V("held"))])
+            # the factory itself takes the value and lets the sibling write the cell once (so that every instance has seen the
+            # sequence); the history goes on calling both closures in any order
             body = [decl, ("decl", "held", None, I(0 - 5), ()), ("decl", "fa", None, take, ()), ("decl", "fb", None, bump, ()),
+                    ("print", ("call", V("fa"), [])), ("print", ("call", V("fb"), [])), ("print", V("held")),
                     ("decl", "out", ("list", FI), ("list", [V("fa"), V("fb")]), ()), ("return", V("out"))]
             facts.append((fname, "list"))
             stmts.append(("decl", fname, None, ("fn", [("init", "int")], ("list", FI), body), ()))
@@ -242,7 +249,7 @@ def cases(draw):
             g.label("closure-created-in-block-over-shadowing-local:" + where)
             continue
         if shape == "single":
-            kind = g.choice(["inc", "read", "condinc", "shadow", "loopsum", "mcallarg", "localcopy", "inctwice", "loopshadow", "loopshadowinner", "ifshadow", "afterloop"])
+            kind = g.choice(["inc", "read", "condinc", "shadow", "loopsum", "mcallarg", "localcopy", "inctwice", "loopshadow", "loopshadowinner", "ifshadow", "afterloop", "opinc", "opinc"])
             body = [("decl", local, None, V("init"), ()), ("return", body_for(kind, local, k=g.int(1, 3)))]
             facts.append((fname, "int"))
             stmts.append(("decl", fname, None, ("fn", [("init", "int")], FI, body), ()))
@@ -269,7 +276,7 @@ def cases(draw):
     nm = g.int(1, 4)
     for ci in range(nm):
         v = g.choice(mvars)
-        kind = g.choice(["read", "inc", "set", "shadow", "pure", "condinc", "read2", "loopsum", "mcallarg", "localcopy", "inctwice", "loopshadow", "loopshadowinner", "ifshadow", "afterloop"])
+        kind = g.choice(["read", "inc", "set", "shadow", "pure", "condinc", "read2", "loopsum", "mcallarg", "localcopy", "inctwice", "loopshadow", "loopshadowinner", "ifshadow", "afterloop", "opinc", "opinc"])
         name = "m%d" % ci
         if kind == "read2":
             stmts.append(("decl", name, None, body_for(kind, v, g.choice(mvars)), ()))
@@ -280,6 +287,19 @@ def cases(draw):
         else:
             stmts.append(("decl", name, None, body_for(kind, v, k=g.int(1, 3)), ()))
             closures.append((name, "int"))
+    # closures WITH A PARAMETER made by a factory (threshold + call counter), invoked by the built-ins filter / map, by a user-written
+    # loop and directly: whoever calls them, they run with what they captured; `lim` / `seen` also exist at module level as decoys
+    stmts.append(("decl", "lim", None, I(1000), ()))
+    stmts.append(("decl", "seen", None, I(0 - 7), ()))
+    stmts.append(("decl", "mkpred", None, ("fn", [("lim", "int")], ("fn", ["int"], "bool"),
+                  [("decl", "seen", None, I(0), ()), ("return", ("fn", [("x", "int")], "bool", [("decl", "seen", None, ("bin", "+", V("seen"), I(1)), ("modify",)),
+                                                                                              ("return", ("bin", ">=", ("bin", "+", V("x"), ("bin", "*", V("seen"), I(0))), V("lim")))]))]), ()))
+    stmts.append(("decl", "mkmap", None, ("fn", [("lim", "int")], ("fn", ["int"], "int"),
+                  [("decl", "seen", None, I(0), ()), ("return", ("fn", [("x", "int")], "int", [("decl", "seen", None, ("bin", "+", V("seen"), I(1)), ("modify",)),
+                                                                                             ("return", ("bin", "+", ("bin", "*", V("x"), V("lim")), V("seen")))]))]), ()))
+    stmts.append(("decl", "pred2", None, ("call", V("mkpred"), [I(2)]), ()))
+    stmts.append(("decl", "map3", None, ("call", V("mkmap"), [I(3)]), ()))
+    stmts.append(("decl", "nums", ("list", "int"), ("list", [I(1), I(2), I(3), I(4)]), ()))
     # an OPTIONAL module variable, read by a closure; the module (its owner) writes it with `?=` during the history
     stmts.append(("decl", "ov", ("opt", "int"), ("nil",), ()))
     stmts.append(("decl", "rov", None, ("fn", [], "int", [("return", ("or", V("ov"), I(0 - 1)))]), ()))
@@ -291,7 +311,7 @@ def cases(draw):
     observed_after_write = False
     n_steps = g.int(3, 12)
     for step in range(n_steps):
-        ops = [(3, "call"), (2, "assign"), (1, "opassign"), (1, "blockassign"), (2, "unwrap"), (1, "isclosure"), (2, "apply"), (1, "alias"), (1, "inblock"), (1, "printvar")]
+        ops = [(3, "call"), (2, "via-builtin"), (2, "assign"), (1, "opassign"), (1, "blockassign"), (2, "unwrap"), (1, "isclosure"), (2, "apply"), (1, "alias"), (1, "inblock"), (1, "printvar")]
         if facts:
             ops.append((3, "instantiate"))
         if any(k == "set" for _, k in closures):
@@ -315,6 +335,21 @@ def cases(draw):
         elif op == "assign":
             v = g.choice(mvars)
             stmts.append(("decl", v, None, I(g.int(0, 9)), ()))
+            wrote = True
+        elif op == "via-builtin":
+            k = g.choice(["filter", "map", "direct-pred", "direct-map", "filter-then-map"])
+            g.label("feat:closure-invoked-by:" + k)
+            if k == "filter":
+                stmts.append(("print", ("mcall", V("nums"), "filter", [V("pred2")])))
+            elif k == "map":
+                stmts.append(("print", ("mcall", V("nums"), "map", [V("map3")])))
+            elif k == "direct-pred":
+                stmts.append(("print", ("call", V("pred2"), [I(g.int(0, 4))])))
+            elif k == "direct-map":
+                stmts.append(("print", ("call", V("map3"), [I(g.int(0, 4))])))
+            else:
+                stmts.append(("print", ("mcall", ("mcall", V("nums"), "filter", [V("pred2")]), "map", [V("map3")])))
+            observed_after_write = True
             wrote = True
         elif op == "opassign":
             stmts.append(("opassign", V(g.choice(mvars)), g.choice(["+=", "-=", "*="]), I(g.int(1, 5))))
